@@ -128,10 +128,10 @@ theorem readFooter_faulty (file : Nat) (img : Bytes) (f : Footer) (w : World)
       ∧ ((Table.readFooter file img.length w).2 = .ok f
           ∨ ∃ c, (Table.readFooter file img.length w).2 = .err c) := by
   have hoff : Consts.fullFooterLength = 48 := rfl
-  obtain ⟨h1, h2, h3⟩ := readAt_cases file (img.length - 48) 48 w
+  obtain ⟨h1, h2, h3⟩ := readBytes_cases file ⟨img.length - 48, 48⟩ w
   unfold Table.readFooter
   rw [if_neg (by rw [hoff]; omega), hoff]
-  rcases hr : readAt file (img.length - 48) 48 w with ⟨w', r⟩
+  rcases hr : readBytes file ⟨img.length - 48, 48⟩ w with ⟨w', r⟩
   rw [hr] at h1 h2 h3
   simp only at h1 h2 h3
   rcases h3 with ⟨c, hc⟩ | ⟨k, hk, hbuf⟩
